@@ -303,6 +303,14 @@ LOOP_KW = ("for", "while", "loop")
 # (rule, from, to): applied to every extracted function after its declared rewrites; each is a no-op when the idiom is absent
 GLOBAL_REWRITES = [
     # R40: `s.contains('c')` (str::contains is generic over the unstable Pattern trait) -> shim with spec `r == s@.contains('c')`
+    # R41: a closure parameter spelled `_` (Verus: "only variables are supported here, not general patterns") gets a name
+    ("R41", r"re:\|_\|", "|_unused_arg|"),
+    # R42: a closure whose whole body is a boolean literal is annotated with exactly that (`|x| false` -> ensures cr == false)
+    ("R42", r"re:\|(\w+)\| (true|false)(?=\s*[),;])", r"|\1| -> (cr: bool) ensures cr == \2 { \2 }"),
+    # R43: an unannotated one-parameter closure whose whole body is a boolean expression (a comparison, a conjunction, a negation)
+    # is annotated with its own body read as a spec expression; if Verus cannot read it that way the run ends undecided as before
+    ("R43", r"re:\|(\w+)\| ((?:!\s*)?(?:[^(){}|;,=<>!&]|\([^()]*\))+(?:(?:==|!=|<=|>=|<|>|&&)\s*(?:!\s*)?(?:[^(){}|;,=<>!&]|\([^()]*\))+)*)(?=\s*[),;])",
+     "@R43"),
     ("R40", r"re:(\b[A-Za-z_][\w.]*)\.contains\(('(?:[^'\\]|\\.)+')\)", r"shim_str_contains_char(\1, \2)"),
 ]
 
@@ -319,7 +327,19 @@ def splice_fn(text, spec=None, ret=None, loops=None, before=None, after=None, re
         log.append({"rule": rule, "item": sel, "from": frm, "to": to, "count": cnt})
     # 1a) global optional rewrites of common std idioms Verus has no specification for (shims live in contracts/prelude/std_extra.rs)
     for rule, frm, to in GLOBAL_REWRITES:
-        if to.split("(")[0] in text:
+        if "(" in to and to.split("(")[0] in text:
+            continue
+        if to == "@R43":
+            def _r43(m_):
+                b_ = m_.group(2).strip()
+                if not (b_.startswith("!") or re.search(r"==|!=|<=|>=|&&|\s<\s|\s>\s", b_)):
+                    return m_.group(0)
+                return f"|{m_.group(1)}| -> (r43_cr: bool) ensures r43_cr == ({b_}) {{ {b_} }}"
+            new_text = re.sub(frm[3:], _r43, text)
+            cnt = 1 if new_text != text else 0
+            text = new_text
+            if cnt:
+                log.append({"rule": rule, "item": sel, "from": "|x| <boolean expression>", "to": "|x| -> (r43_cr: bool) ensures r43_cr == (<the same expression>) { .. }", "count": cnt})
             continue
         text, cnt = apply_rewrite(text, frm, to)
         if cnt:
@@ -709,6 +729,7 @@ def compose(template_text, repo_root, read_file):
     # Verus knows nothing about what such a closure does, so a proof that has to look inside one can only fail for lack of
     # information. verus.py compares this list with the committed baseline (engine/closures_baseline.json): a failure in an item
     # that GAINED an unannotated closure is reported as undecided, not as a violation.
+    closure_irrelevant = set(l.split()[1] for l in template_text.split("\n") if l.strip().startswith("//@CLOSURE-IRRELEVANT") and len(l.split()) > 1)
     for it in items:
         if not it.get("is_fn"):
             continue
@@ -731,6 +752,20 @@ def compose(template_text, repo_root, read_file):
                     depth -= 1
                 elif ch in ",;" and depth == 0: break
                 k += 1
+            # the call this closure is an argument of: closures handed to a function whose (stub) contract ignores the
+            # closure's verdict altogether (template directive `//@CLOSURE-IRRELEVANT name`) carry no information either way
+            q, dep, callee = m.start(), 0, None
+            while q > 0:
+                q -= 1
+                if body[q] in ")]}": dep += 1
+                elif body[q] in "([{":
+                    if dep == 0:
+                        mm_ = re.search(r"(\w+)\s*(?:::\s*<[^<>]*>\s*)?$", body[:q])
+                        callee = mm_.group(1) if mm_ else None
+                        break
+                    dep -= 1
+            if callee and callee in closure_irrelevant:
+                continue
             found.append(re.sub(r"\s+", " ", "|" + m.group(1).strip() + "| " + body[j:k].strip()))
         it["unannotated_closures"] = found
     return text, {"items": items, "rewrites": rewrites_log, "regions": regions}
